@@ -26,10 +26,18 @@ API surface (notes/API_SURFACE.md): every public way of performing the operation
                                                                          sorts and edits; both paragraph classes; lts + trace legs
   Deb822FileElement.insert / append with a paragraph from            apply_edge "insert"/"append": rotating per call
       new_empty_paragraph()+item assignment or from_dict()
+  Deb822FileElement.append(q) / insert(i, q) with a paragraph q      apply_edge "appendo"/"inserto" (model actions AppendOwned /
+      that ALREADY belongs to a file (paragraph of another parsed        InsertOwned, C10): refused calls as ordinary history steps:
+      file, of a file built with new_empty_file()+append, or of          ValueError, dump() byte-identical to the dump before the
+      THIS file - also the one an earlier step inserted), at every       call, history goes on; insert in front of an existing
+      index                                                              paragraph: refusal unspecified, an accepted call ends the history
   dump(), dump(fd), convert_to_text(), iteration over paragraphs,    check_state after every (deep) step; a fresh parse of the dump
       keys(), (name, i) lookup
+  input form: comment lines of the start document - the field's       Conc / value_layouts / comment_block: text lines and BLANK
+      own comment block, inner comments of a value, free comments        comment lines ("#", "# ", "#\t", "#  \t ") alone, first,
+      between paragraphs                                                  last, in the middle of a block, doubled (CMT_SHAPES)
   out of domain: from_kvpairs() (re-parents the elements of another paragraph: aliasing by design),
-      appending a paragraph that already belongs to a file (ValueError by design), the interpreted
+      the state of a document after insert() ACCEPTED a paragraph that already belongs to a file, the interpreted
       views of X04/C11, configured_view flags other than the defaults (extra X10), removal of paragraphs
       (no public remove for paragraphs on the file element in the statement's operation list)."""
 import json
@@ -42,6 +50,29 @@ BAD = 103       # model blob of a value the setters reject (ReproDoc.BadV)
 
 def spelled(base, s):
     return {"U": base, "L": base.lower(), "X": base.upper()}[s]
+
+
+# comment lines that consist of the marker and blanks only (a comment blob of the model stands for ANY
+# block of comment lines; these are the lines an implementation is tempted to "normalise" to "#")
+BLANK_CMT = ["#", "# ", "#\t", "#  \t "]
+# shapes of a comment block: T = line with text (carries the identity of the blob), U = second text
+# line, B = blank comment line -- alone, first, last, in the middle, doubled
+CMT_SHAPES = ["BT", "TB", "TBU", "BTB", "BBT", "TBB", "TUB", "BTU", "TBBU", "B", "B", "BB"]
+
+
+def comment_block(rng, first, second, taken=()):
+    """text of one block of comment lines with at least one blank comment line; blocks made of blank
+    comment lines only are distinguishable by content from the blocks in `taken` (else the shape
+    falls back to one with a text line), so that a projection can look blobs up by text"""
+    # the text line in other spellings of the marker and with blanks at its end (same temptation)
+    if first.startswith("# "):
+        first = rng.choice(["# ", "# ", "#", "#\t", "## ", "#  "]) + first[2:] + rng.choice(["", "", " ", "\t", "  \t"])
+    for shape in (rng.choice(CMT_SHAPES), "BT"):
+        lines = [{"T": first, "U": second}.get(ch) or rng.choice(BLANK_CMT) for ch in shape]
+        text = "".join(x + "\n" for x in lines)
+        if "T" in shape or text not in taken:
+            return text
+    return text
 
 
 # value layouts for original fields: (text after the colon, value as read back through p[key])
@@ -64,6 +95,14 @@ def value_layouts(rng, tag, final_nl=True):
     tc = [chr(0x400 + rng.randrange(64)) for _ in range(3)]   # character stress: every UTF-8 trailing byte at line ends
     opts.append((" %s%s\n c%s\n" % (w, tc[0], tc[1]), "%s%s\n c%s" % (w, tc[0], tc[1])))
     opts.append((" %s %s\n" % (w, tc[2]), "%s %s" % (w, tc[2])))
+    # inner comments with BLANK comment lines (marker + blanks only) in every position of the block:
+    # alone, first / last / in the middle of a block, directly behind the field's own line
+    b = [rng.choice(BLANK_CMT) for _ in range(4)]
+    opts.append((" %s,\n%s\n z-%s\n" % (w, b[0], w), "%s,\n z-%s" % (w, w)))
+    opts.append((" %s,\n%s\n# inner %s\n%s\n z-%s\n%s\n%s\n y-%s\n" % (w, b[0], w, b[1], w, b[2], b[3], w),
+                 "%s,\n z-%s\n y-%s" % (w, w, w)))
+    opts.append((" %s,\n# inner %s\n%s\n#  more\n z-%s\n" % (w, w, b[1], w), "%s,\n z-%s" % (w, w)))
+    opts.append(("\n%s\n line1-%s\n# c\n%s\n line2-%s\n" % (b[2], w, b[3], w), "\n line1-%s\n line2-%s" % (w, w)))
     if rng.random() < 0.05:          # size stress: long lines, many continuation lines
         k = rng.choice([72, 73, 255, 256, 1023, 1024, 4095, 4096, 4097, 8192])
         n = rng.choice([10, 11, 100, 101])
@@ -126,6 +165,9 @@ class Conc:
                     if f["c"]:
                         self.cmt[f["c"]] = ("# comment %d\n" % f["c"]) if canonical or rng.random() < 0.5 \
                             else "# comment %d\n#  second line é\n" % f["c"]
+                        if not canonical and rng.random() < 0.4:      # blank comment lines in the field's comment
+                            self.cmt[f["c"]] = comment_block(rng, "# comment %d" % f["c"], "#  second line é",
+                                                             set(self.cmt.values()))
         nparts = len(start_doc)
         for i, part in enumerate(start_doc):
             if part["t"] == "s":
@@ -143,6 +185,14 @@ class Conc:
                     else:
                         opts.append("\n# free comment %d\n\n" % k)
                 self.sep[part["id"]] = opts[0] if canonical else rng.choice(opts)
+                if not canonical and rng.random() < 0.25:
+                    # free comments with blank comment lines in every position of the block; a block of
+                    # blank comment lines only is told apart by the number of blanks (unique_seps)
+                    what = ("leading " if i == 0 else ("trailing " if i == nparts - 1 else "")) + "free comment %d" % part["id"]
+                    blk = comment_block(rng, "# " + what, "# c2")
+                    if unique_seps and "comment" not in blk:
+                        blk = "#" + rng.choice(" \t") * part["id"] + "\n"
+                    self.sep[part["id"]] = ("" if i == 0 else "\n") + blk + "\n"
         # new values written by edits: (value passed to the API, text after colon, readback)
         if canonical:
             self.new = {NEWS: ("new-s", " new-s\n", "new-s"),
@@ -410,6 +460,29 @@ def new_paragraph(conc, n, rng=None):
     return q
 
 
+def owned_paragraph(f, w, conc, rng=None):
+    """a paragraph that already belongs to a file, and that file (the caller keeps it referenced
+    during the call).  w >= 1: paragraph number w of f itself; w = 0: a paragraph of another file -
+    parsed from text (first / last paragraph, with or without final newline, possibly with
+    duplicated fields) or built with new_empty_file() + append"""
+    if w >= 1:
+        return list(f)[w - 1], f
+    from debian._deb822_repro.parsing import Deb822FileElement
+    v = rng.randrange(4) if rng is not None else 0
+    names = [spelled(b, "U") for _, b in sorted(conc.base.items())]
+    if v == 0:
+        other = Deb822FileElement.new_empty_file()
+        other.append(new_paragraph(conc, sorted(conc.base)[0], rng))
+        if rng is not None and rng.random() < 0.5:
+            other.append(new_paragraph(conc, sorted(conc.base)[-1], rng))
+    else:
+        text = "%s: o1\n%s: o2\n\n# other file\n%s: o3\n%s: o4%s" % (
+            names[0], names[-1], names[0], names[0] if v == 3 else names[-1], "\n" if v != 2 else "")
+        other = parse(text)
+    paras = list(other)
+    return (paras[-1] if rng is not None and rng.random() < 0.5 else paras[0]), other
+
+
 def key_function(conc, kt, variant=0):
     """the Python key function for the model's key table kt (kt[n - 1] = key of the name of rank n):
     it sees the field name in whatever spelling the paragraph hands out; the keys are ints, 1-tuples
@@ -434,6 +507,16 @@ def apply_edge(f, e, conc, rng):
                 f.insert(a[0], q)
             else:
                 f.append(q)
+            return "ok"
+        if op in ("inserto", "appendo"):
+            # a paragraph that already belongs to a file: w = 0 another file (kept alive here: parents
+            # are weak references), w >= 1 paragraph number w of this very file
+            q, owner = owned_paragraph(f, a[-1], conc, rng)
+            if op == "inserto":
+                f.insert(a[0], q)
+            else:
+                f.append(q)
+            del owner
             return "ok"
         paras = list(f)
         p = paras[a[0] - 1]
@@ -541,7 +624,24 @@ def outcome_matches(model_res, real):
         return real in ("KeyError", "ValueError")
     if model_res == "LookupOrValueError":    # rejected value AND unusable key: which error comes first is unspecified
         return real in ("KeyError", "IndexError", "ValueError")
+    if model_res == "ValueErrorOrAccepted":  # insert of an owned paragraph in front of an existing one: refusal unspecified
+        return real in ("ValueError", "ok")
     return None   # a value: compared by the caller
+
+
+# structural calls whose refusal (model: error result, doc' = doc) is checked byte for byte (same_text) in the lts legs
+EXACT_WHEN_REFUSED = ("appendo", "inserto", "first", "last", "before", "after")
+REFUSALS = ("KeyError", "ValueError", "IndexError", "KeyOrValueError", "ValueErrorOrAccepted")
+
+
+def same_text(f, before):
+    """observation after a refused call: dump() and the token texts are byte-identical to the dump
+    before the call - up to supplying a MISSING newline at the very end of the document (the one
+    change the statement permits; order_before/after terminate the last line before they refuse)"""
+    after = f.dump()
+    if "".join(t.text for t in f.iter_tokens()) != after:
+        return False
+    return after == before or (not before.endswith("\n") and after == before + "\n")
 
 
 def eq_mod_final_newline(exp, got):
@@ -681,8 +781,21 @@ def run_path(start_doc, path, conc, rng, deep_every=1, drifts=None, info=None):
     if isinstance(m, str):
         return "step 0 (parse of %r): %s" % (text, m)
     for i, e in enumerate(path):
+        # the model REFUSES this structural call (error result, document unchanged): byte-identical dump
+        refused = e["op"] in EXACT_WHEN_REFUSED and e["res"] in REFUSALS
+        before = f.dump() if refused else None
         real = apply_edge(f, e, conc, rng)
         where = "step %d %s%s" % (i + 1, e["op"], json.dumps(e["args"]))
+        if e["res"] == "ValueErrorOrAccepted" and real == "ok":
+            # unspecified zone: the call was accepted, the document is outside the model from here on
+            if drifts is not None:
+                drifts.append("%s: insert() accepted a paragraph that already belongs to a file (unspecified; history ends)" % where)
+            return None
+        if refused and real != "ok" and not isinstance(real, tuple):
+            after = f.dump()
+            if not same_text(f, before):
+                return "%s: the call was refused (%s), yet the document changed: dump() was %r, is now %r" % (
+                    where, real, before, after)
         ok = outcome_matches(e["res"], real if not isinstance(real, tuple) else "VAL")
         if ok is None:
             # model result is a value blob id
@@ -859,13 +972,25 @@ def record_trace(rng, nops, ops, nnames=5, nl=False, vals=(NEWS, NEWM)):
                 continue
         if op in ("insert", "append") and len(paras) >= 5:
             continue
+        if op in ("inserto", "appendo"):
+            # refused calls: the paragraph already belongs to another file (0) or is paragraph w of this one
+            e["w"] = rng.choice([0, 0, len(paras)] + list(range(1, len(paras) + 1)))
+            if op == "inserto" and (rng.random() < 0.4 or not events):     # (a recorded history has at least one event)
+                e["idx"] = len(paras) + rng.randrange(2)      # more of the calls that degenerate into append
         edge = {"op": op, "args": {"get": [p, [n, i]], "set": [p, [n, i], e["s"], e["v"]], "del": [p, [n, i]],
                                    "first": [p, [n, i]], "last": [p, [n, i]], "before": [p, [n, i], [r, ri]],
                                    "after": [p, [n, i], [r, ri]], "sort": [p], "sortby": [p, e.get("kt")],
-                                   "insert": [e["idx"], n], "append": [n]}[op]}
+                                   "insert": [e["idx"], n], "append": [n],
+                                   "inserto": [e["idx"], e.get("w")], "appendo": [e.get("w")]}[op]}
+        before = f.dump() if op in EXACT_WHEN_REFUSED else None
         real = apply_edge(f, edge, conc, rng)
         if isinstance(real, tuple):
             real = rb.get(real[1], "unknown-value:%r" % (real[1],))
+        if op == "inserto" and real == "ok":
+            break       # unspecified zone (ReproDoc.InsertOwned, anchored): accepted -> not recorded, the history ends
+        if before is not None:
+            # observation for the trace module: does dump() return exactly the text it returned before the call?
+            e["same"] = same_text(f, before)
         e["res"] = real
         e["obs"] = project(f, conc, rank, nl)
         events.append(e)
@@ -931,6 +1056,14 @@ def corrupt_trace(t, how):
                     if x["c"]:
                         x["c"] = 0
                         return t
+        if how == "owned" and e["op"] in ("appendo", "inserto") and e["res"] == "ValueError" and e["obs"][-1]["t"] == "p":
+            # a refused append that left its separating newline behind the last paragraph
+            e["obs"].append({"t": "s", "dup": False, "fs": [], "id": NEWSEP})
+            return t
+        if how == "owned-nl" and e["op"] in ("appendo", "inserto") and e["res"] == "ValueError" and e.get("same"):
+            # a refused call after which dump() differs (e.g. the last line was terminated), same fields
+            e["same"] = False
+            return t
         if how == "merge" and e["op"] in ("append", "insert") and e["res"] == "ok":
             obs = e["obs"]
             for j in range(len(obs) - 1):
@@ -944,7 +1077,7 @@ def validate(ctx, traces, with_controls=True):
     import core
     controls = []
     if with_controls:
-        for how in ("swap", "res", "comment", "merge", "tie", "glue", "badset"):
+        for how in ("swap", "res", "comment", "merge", "tie", "glue", "badset", "owned", "owned-nl"):
             for t in traces:
                 c = corrupt_trace(t, how)
                 if c:
@@ -1003,7 +1136,7 @@ def trace_leg(ctx, ntraces, nops, ops, nl=False, vals=(NEWS, NEWM)):
         ctx.violation({"kind": "trace", "trace": t, "first_unexplained_event": at + 1},
                       "recorded history not explained by ReproDoc: document %r, event %d %s -> outcome %r, "
                       "state before %s, state after %s"
-                      % (t["start_text"], at + 1, json.dumps({k: ev[k] for k in ("op", "p", "k", "r", "s", "v", "idx", "n", "kt") if k in ev}) if ev else None,
+                      % (t["start_text"], at + 1, json.dumps({k: ev[k] for k in ("op", "p", "k", "r", "s", "v", "idx", "n", "kt", "w", "same") if k in ev}) if ev else None,
                          ev and ev["res"], json.dumps(before, separators=(",", ":")), json.dumps(ev and ev["obs"], separators=(",", ":"))))
     ctx.extra["traces_recorded"] = ctx.extra.get("traces_recorded", 0) + len(traces)
     ctx.extra["traces_rejected"] = ctx.extra.get("traces_rejected", 0) + len(rejected)
@@ -1025,11 +1158,17 @@ def replay_trace_case(ctx, case):
         edge = {"op": e["op"], "args": {"get": [p, [n, i]], "set": [p, [n, i], e["s"], e["v"]], "del": [p, [n, i]],
                                         "first": [p, [n, i]], "last": [p, [n, i]], "before": [p, [n, i], [r, ri]],
                                         "after": [p, [n, i], [r, ri]], "sort": [p], "sortby": [p, e.get("kt")],
-                                        "insert": [e["idx"], e["n"]], "append": [e["n"]]}[e["op"]]}
+                                        "insert": [e["idx"], e["n"]], "append": [e["n"]],
+                                        "inserto": [e["idx"], e.get("w")], "appendo": [e.get("w")]}[e["op"]]}
+        before = f.dump() if "same" in e else None
         real = apply_edge(f, edge, conc, rng)
         if isinstance(real, tuple):
             real = rb.get(real[1], "unknown-value:%r" % (real[1],))
+        if e["op"] == "inserto" and real == "ok":
+            break
         events.append(dict(e, res=real, obs=project(f, conc, rank, nl)))
+        if before is not None:
+            events[-1]["same"] = same_text(f, before)
     new = {"init": project(parse(t["start_text"]), conc, rank, nl), "events": events}
     rejected, info = validate(ctx, [new], with_controls=False)
     if rejected:
@@ -1159,7 +1298,7 @@ def lts_legs(ctx, legs, also=(), prefer=None, fast=False):
                     meta.append((("edge", cfg, e["_f"], e["op"], skey(e["args"])),
                                  e["from"] != e["to"] or e["res"] != "ok"))
             for w in range(max(1, nwalks // len(inits))):
-                path = g.walk(rng, g.init, wlen, weight=lambda x: 4 if x["from"] != x["to"] else 1)
+                path = g.walk(rng, g.init, wlen, weight=lambda x: 4 if x["from"] != x["to"] else (0.3 if x["res"] == "ValueErrorOrAccepted" else 1))
                 tasks.append((init, [strip(x) for x in path], names, rng.getrandbits(40), False, 5))
                 meta.append((("walk", cfg, w, skey(init)), True))
             if g.edges:
